@@ -90,3 +90,37 @@ def repeatability(ctx):
     ctx.decided("no-nondeterminism-source", "repeatability", not sites,
                 witness="%d sources" % len(sites),
                 note="random / time / id / hash / set iteration / directory listings in the closure")
+
+
+# ---------------------------------------------------------------------------------------------
+# the cached matrix structure must not outlive a run that did not ask for it
+
+@unit("C12", "cache_dropped_on_every_exit", functions=[PF + ":hydraulics", PF + ":bidirectional"], engine="E1")
+def cache_dropped(ctx):
+    """net['_internal_data'] (sorted Jacobian structure of only_update_hydraulic_matrix) is state that later runs
+    read: unless reuse_internal_data is requested it must be gone at EVERY exit of the stage, also the raising
+    ones -- otherwise a failed run changes what the next run computes"""
+    import z3
+    from contracts import C05
+    from pvc import twin as T, src as S_
+    ctx.assume("A2", "A4", "A6")
+    for stage in ("hydraulics", "bidirectional"):
+        fm = C05.FunctModel(stage)
+        log, record = [], {}
+        wl = C05.while_line(PF + ":newton_raphson")
+        paths = T.run_paths(ctx, PF + ":" + stage, lambda: ([C05.make_net("constant")], {}),
+                            contracts=C05.stage_contracts(stage, fm, log), hooks={("while", wl): C05.loop_hook(record)},
+                            max_paths=4096, guarded_ifs=True)
+        ctx.decided("%s/exits-found" % stage, "cover", any(p.exc is None for p in paths) and any(p.exc is not None for p in paths),
+                    witness=str(len(paths)))
+        reuse = z3.Bool("reuse_internal_data")
+        bad = []
+        for p in paths:
+            net = p.args[0][0]
+            if "_internal_data" in net.items:
+                bad.append(p)
+        for kind in ("returning", "raising"):
+            sel = [p for p in bad if (p.exc is None) == (kind == "returning")]
+            # a path that still holds the cache must be one on which reuse was requested
+            goal = z3.And(*[z3.Implies(p.cond(), reuse) for p in sel]) if sel else z3.BoolVal(True)
+            ctx.ob("%s/%s-exits-drop-the-cache-unless-reuse-requested" % (stage, kind), "ensures", [], goal)
